@@ -1,7 +1,47 @@
 #!/bin/bash
-# thorough tier: the quick rules plus the checker's own controls (overlay mutants that must make
-# the targeted rule fire). Controls validate the checker; the verdict comes from the unmodified tree.
+# thorough tier for one property:
+#   1. the quick rules on the unmodified tree (verdict),
+#   2. N-version check of the substrate: the analyzer rebuilt with go1.26.8 + x/tools v0.50.0 must
+#      produce the identical obligation list and verdicts (a difference is a checker-integrity failure),
+#   3. the checker's own controls: overlay mutants that must make the targeted rule fire (reported in
+#      the evidence; they validate the checker, never the property).
 set -u
 cd "$(dirname "$0")"
 PROP="$1"
-exec ./bin/sa -prop "$PROP" -tier thorough
+export GOFLAGS=-mod=mod GOPROXY=off GOSUMDB=off GOTOOLCHAIN=local GOWORK=off
+REPO="${VERIF_REPO:-/repo}"
+mkdir -p reports
+EXTRA="reports/$PROP-thorough-extra.json"
+FAILS=()
+# 2. second toolchain
+NV="skipped"
+if command -v go1.26.8 >/dev/null 2>&1; then
+  if [ ! -x bin/sa50 ] || [ -n "$(find sa -name '*.go' -newer bin/sa50 2>/dev/null | head -1)" ]; then
+    (cd sa && go1.26.8 build -modfile=go.v50.mod -o ../bin/sa50 .) >reports/build50.log 2>&1 || NV="build-failed"
+  fi
+  if [ "$NV" != "build-failed" ]; then
+    ./bin/sa -prop "$PROP" -repo "$REPO" -dump > "reports/$PROP.dump.a" 2>/dev/null
+    PATH="/opt/veriftools/go1.26.8/bin:$PATH" ./bin/sa50 -prop "$PROP" -repo "$REPO" -dump > "reports/$PROP.dump.b" 2>/dev/null
+    if cmp -s "reports/$PROP.dump.a" "reports/$PROP.dump.b"; then NV="identical"; else NV="DIFFERENT"; FAILS+=("n-version: obligations/verdicts differ between go1.23+x/tools0.29 and go1.26.8+x/tools0.50 (diff reports/$PROP.dump.a reports/$PROP.dump.b)"); fi
+  fi
+fi
+# 2b. build configurations: -tags verif must give the same obligations (build-tagged files, should any
+# appear, are covered). GOARCH=386 is not used: examples/custom-functions-demo does not type-check on
+# 32-bit targets (an int constant overflows), so the module cannot be loaded as a whole there.
+CFG="identical"
+./bin/sa -prop "$PROP" -repo "$REPO" -tags verif -dump > "reports/$PROP.dump.tag" 2>/dev/null
+[ -s "reports/$PROP.dump.a" ] || ./bin/sa -prop "$PROP" -repo "$REPO" -dump > "reports/$PROP.dump.a" 2>/dev/null
+for v in tag; do
+  if ! cmp -s "reports/$PROP.dump.a" "reports/$PROP.dump.$v"; then CFG="DIFFERENT($v)"; FAILS+=("build-config: obligations/verdicts differ under $v (diff reports/$PROP.dump.a reports/$PROP.dump.$v)"); fi
+done
+# 3. controls
+CTL=$(python3 tools/controls.py "$PROP" 8 2>/dev/null || echo '{"controls":[],"fired":0,"missed":0,"skipped":0}')
+python3 - "$EXTRA" "$NV" "$CTL" "$CFG" "${FAILS[@]:-}" <<'PY'
+import json, sys
+extra, nv, ctl, cfg = sys.argv[1], sys.argv[2], json.loads(sys.argv[3]), sys.argv[4]
+fails = [f for f in sys.argv[5:] if f]
+json.dump({"n_version_substrate": {"toolchains": ["go1.23.5 + x/tools v0.29.0", "go1.26.8 + x/tools v0.50.0"], "result": nv},
+           "build_configurations": {"variants": ["default", "-tags verif"], "result": cfg},
+           "checker_controls": ctl, "integrity_failures": fails}, open(extra, "w"), indent=1)
+PY
+exec ./bin/sa -prop "$PROP" -repo "$REPO" -tier thorough -extra "$EXTRA"
